@@ -200,6 +200,21 @@ def _reach_sessions(ctx):
         for n in sizes:
             ps += [ser.pos_str(p) for _, p in td.tactical_positions(rng, n, 2)]
         out.append({"positions": ps, "seed": rng.randrange(1 << 30)})
+    # searches that end on the clock (time_limit) instead of a visit count: wherever the deadline
+    # falls, every node the search has expanded carries every legal continuation
+    for sizes, tl in ([([5, 6, 4], 0.03), ([6, 6], 0.015), ([4, 5, 6], 0.05), ([3, 6], 0.008)] * (3 if ctx.thorough else 1)):
+        ps = [ser.pos_str(rng.choice(td.start_positions(rng, n, 3, custom_prob=0.3))) for n in sizes]
+        out.append({"positions": ps, "seed": rng.randrange(1 << 30), "time_limit": tl})
+    return out
+
+
+def _expanded(tree):
+    out, todo = [], [tree]
+    while todo:
+        n = todo.pop()
+        if n.children is not None:
+            out.append(n)
+            todo.extend(n.children)
     return out
 
 
@@ -214,19 +229,26 @@ def _reach_run(ctx, sess):
     torch.manual_seed(sess["seed"])
     rec = td.Recorder(td.HarnessEvaluator("uniform", sess["seed"], 1e-6), "torch", sess["seed"])
     rec.capture_solver = False
-    engine = mcts.MCTS(mcts.Config(time_limit=0, simulation_limit=1), rec)
+    tl = sess.get("time_limit", 0)
+    engine = mcts.MCTS(mcts.Config(time_limit=tl, simulation_limit=0 if tl else 1), rec)
     seen, lines = [], []
     with rec:
         for ps in sess["positions"]:
             pos = ser.parse_pos(ps.split(" "))
+            T = _impl_table(pos.size) or []
             try:
                 tree = engine.analyze(pos)
-                kids = sorted(mv(c.move) for c in tree.children)
+                nodes = _expanded(tree) if tl else [tree]
             except Exception as e:
-                kids = "crash " + type(e).__name__
-            T = _impl_table(pos.size) or []
-            seen.append((ps, kids, T))
-            lines.append("gen legalmask %s %s" % (ps, ";".join(mv(m) for m in T)))
+                seen.append((ps, "crash " + type(e).__name__, T))
+                lines.append("gen legalmask %s %s" % (ps, ";".join(mv(m) for m in T)))
+                continue
+            if ctx is not None and tl:
+                ctx.count("reach:nodes-expanded-by-searches-ended-by-the-clock", len(nodes))
+            for nd in nodes:
+                nps = ser.pos_str(nd.position)
+                seen.append((nps, sorted(mv(c.move) for c in nd.children), T))
+                lines.append("gen legalmask %s %s" % (nps, ";".join(mv(m) for m in T)))
     bad = []
     for k, ((ps, kids, T), mask) in enumerate(zip(seen, driver.run_lines(lines))):
         if ctx is not None:
@@ -251,11 +273,109 @@ def _reach_run(ctx, sess):
     return bad
 
 
+# ------------------------------------------------------------------ positions that come and go
+
+def _walks(ctx):
+    """perft-style walks: every child position is a temporary that is dropped as soon as its own moves
+    have been listed (what a move-by-move search or a perft loop does); thousands of short-lived
+    positions with equal ply and reserves"""
+    rng = ctx.rng
+    out = []
+    for size, depth, width in ([(3, 2, 12), (4, 2, 14), (5, 1, 60), (3, 3, 6), (6, 1, 60), (4, 1, 80), (5, 2, 12), (7, 1, 40)] * (3 if ctx.thorough else 1)):
+        cand = [q for _, q in gen.sample_positions(rng, [size], 1, per_game=6, constructed_per_size=1) if q.ply >= 2 and q.winner()[1] is None]
+        for pos in rng.sample(cand, min(2, len(cand))):
+            for style in ("temp", "rebind"):
+                out.append({"root": ser.pos_str(pos), "depth": depth, "width": width, "seed": rng.randrange(1 << 30), "style": style})
+    return out
+
+
+def _walk_run(ctx, walk):
+    """[(key, message)]: all_moves() of every position of the walk against the driver's generator"""
+    import random
+
+    import tak
+
+    rng = random.Random(walk["seed"])
+    seen = []
+
+    def rec(pos, d, path):
+        try:
+            G = pos.all_moves()
+        except Exception as e:
+            seen.append((ser.pos_str(pos), "crash " + type(e).__name__, path))
+            return
+        seen.append((ser.pos_str(pos), G, path))
+        if d == 0:
+            return
+        ms = list(G)
+        rng.shuffle(ms)
+        n = 0
+        if walk.get("style") == "rebind" and d == 1:
+            # `for m in moves: child = pos.move(m); ... child.all_moves()`: each child is dropped when
+            # the name is bound to the next one
+            child = None
+            for m in ms:
+                if n >= walk["width"]:
+                    break
+                try:
+                    child = pos.move(m)
+                except tak.IllegalMove:
+                    continue
+                n += 1
+                try:
+                    seen.append((ser.pos_str(child), child.all_moves(), path + [mv(m)]))
+                except Exception as e:
+                    seen.append((ser.pos_str(child), "crash " + type(e).__name__, path + [mv(m)]))
+            return
+        for m in ms:
+            if n >= walk["width"]:
+                break
+            try:
+                rec(pos.move(m), d - 1, path + [mv(m)])  # the child lives for this call only
+            except tak.IllegalMove:
+                continue
+            n += 1
+
+    rec(ser.parse_pos(walk["root"].split(" ")), walk["depth"], [])
+    outs = driver.run_lines(["gen allmoves " + ps for ps, _, _ in seen])
+    bad = []
+    for (ps, G, path), o in zip(seen, outs):
+        if ctx is not None:
+            ctx.evaluated()
+            ctx.count("walk:positions")
+        want = sorted(split_moves(o))
+        if isinstance(G, str):
+            bad.append(("legal-move-not-generated", "walk from [%s] after %s: all_moves() on [%s] raised (%s)" % (walk["root"], path, ps, G)))
+            continue
+        got = sorted(mv(m) for m in G)
+        if got == want:
+            continue
+        pos = ser.parse_pos(ps.split(" "))
+        cands = list(collections.OrderedDict((m, None) for m in list(gen.wellformed_moves(pos.size)) + list(G)))
+        r = {"pos": pos, "ps": ps, "G": G, "gerr": None, "cands": cands, "acc": "".join(_accept(pos, m) for m in cands),
+             "legal": driver.run_lines(["gen legalmask %s %s" % (ps, ";".join(mv(m) for m in cands))])[0]}
+        hits = _predicate(r)
+        where = "walk from [%s], position [%s] reached by %s (the %d-th position listed in this walk)" % (walk["root"], ps, path, len(bad) + 1)
+        if hits:
+            bad.append((hits[0][0], "%s: %s; in isolation the same position %s" % (where, hits[0][2], "fails too" if _predicate(_reobserve(ctx, ps)) else "is listed correctly")))
+        else:
+            bad.append((None, "%s: all_moves() differs from the generator of the model (%d vs %d moves) but C03 holds" % (where, len(got), len(want))))
+    return bad
+
+
 def tie(ctx):
     divs = []
     _STATE["obs"] = []
     _STATE["tables"] = {}
     _STATE["reach"] = []
+    _STATE["walk"] = []
+    for walk in _walks(ctx):
+        for key, msg in _walk_run(ctx, walk):
+            if key is not None:
+                _STATE["walk"].append((walk, key, msg))
+            d = Divergence("corr.generator.walk", {"walk": walk}, msg, "all_moves() = the model's generator as a multiset")
+            d.explained = key is not None
+            divs.append(d)
     for sess in _reach_sessions(ctx):
         for key, msg in _reach_run(ctx, sess):
             _STATE["reach"].append((sess, key, msg))
@@ -427,6 +547,8 @@ def search(ctx, divergences, broken):
             d.explained = d.input.get("size") in bad_table_sizes
         elif d.component == "search.reach":
             d.explained = True
+        elif d.component == "corr.generator.walk":
+            pass
         elif d.input.get("pos") in bad_pos:
             d.explained = True
     vs = []
@@ -437,6 +559,12 @@ def search(ctx, divergences, broken):
         lst.sort(key=lambda c: len(c[0]["positions"]))
         sess, msg = lst[0]
         vs.append(Violation(key, "%s (%d such findings in this run)" % (msg, len(lst)), {"reach": sess, "key": key}))
+    walks = {}
+    for walk, key, msg in _STATE.get("walk", []):
+        walks.setdefault(key, []).append((walk, msg))
+    for key, lst in walks.items():
+        walk, msg = lst[0]
+        vs.append(Violation(key, "%s (%d such findings in this run)" % (msg, len(lst)), {"walk": walk, "key": key}))
     for key, lst in by_key.items():
         lst.sort(key=lambda c: (len(c[0]), c[0], c[1] or ""))
         ps, mtxt, msg = lst[0]
@@ -462,6 +590,8 @@ def replay(ctx, data):
     r = data.get("replay", data)
     if "reach" in r:
         return [Violation(k, msg, r) for k, msg in _reach_run(ctx, r["reach"])]
+    if "walk" in r:
+        return [Violation(k, msg, r) for k, msg in _walk_run(ctx, r["walk"]) if k is not None]
     ps, mtxt, key = r["pos"], r.get("move"), r.get("key")
     rec = _reobserve(ctx, ps, [parse_mv(mtxt)] if mtxt else [])
     ctx.evaluated(len(rec["cands"]))
